@@ -350,8 +350,19 @@ def rule_scanner(model):
     return r
 
 
-RULES = [rule_lock, rule_writers, rule_races, rule_registry, rule_reentry,
-         rule_namespace, rule_scanner]
+def _inl(rule):
+    """Run a rule on the view in which helpers that are new w.r.t. the
+    reference tree are inlined at their call sites (normalise.N2)."""
+    def run(model):
+        return rule(model.inlined_view())
+    run.__name__ = rule.__name__
+    return run
+
+
+INLINED_VIEW = False
+RULES_PLAIN = [rule_lock, rule_writers, rule_races, rule_registry, rule_reentry, rule_namespace, rule_scanner]
+RULES = [_inl(r_) for r_ in RULES_PLAIN] if INLINED_VIEW else [
+    (_inl(r_) if r_ is rule_namespace else r_) for r_ in RULES_PLAIN]
 EXPLANATION = (
     'Lock-scope and publication-order check on cook (path-sensitive), '
     'who-may-write query for the volatile compiled state, enumeration of '
